@@ -3,6 +3,7 @@ package main
 import (
 	"fmt"
 	"go/types"
+	"strconv"
 	"strings"
 
 	"golang.org/x/tools/go/ssa"
@@ -109,6 +110,28 @@ func (x *Exec) callAssertions(st *State, in ssa.Instruction, c *ssa.CallCommon, 
 		x.obls = append(x.obls, cov)
 	}
 	for _, cl := range cls {
+		if strings.HasPrefix(cl.Label, "cover_") {
+			// a label ending in _at<N> restricts the probe to the N-th call site of this callee in the function
+			if k := strings.LastIndex(cl.Label, "_at"); k > 0 {
+				if n, err := strconv.Atoi(cl.Label[k+3:]); err == nil && n != ord {
+					continue
+				}
+			}
+			// conditional reachability (completeness probe): SOME feasible path reaches this call site with the
+			// condition true. Nothing is assumed afterwards. Fails when every instance is unsatisfiable.
+			if x.discovery > 0 {
+				continue
+			}
+			g := x.evalBool(env, cl)
+			pn := fmt.Sprintf("cover:atcall:%s.%s@%d", name, cl.Label, ord)
+			if x.atcallProbes[pn] < 60 {
+				x.atcallProbes[pn]++
+				cov := &Obligation{Name: x.fnKey + "#" + pn, Func: x.fnKey, Kind: "cover", Src: cl.Src, Goal: "(not " + g + ")", Trace: strings.Join(st.trace, " ")}
+				cov.Script = x.script(st, "(not "+g+")")
+				x.obls = append(x.obls, cov)
+			}
+			continue
+		}
 		g := x.evalBool(env, cl)
 		x.emit(st, fmt.Sprintf("atcall:%s.%s@%d", name, cl.Label, ord), "atcall", cl.Src, g)
 		st.assume(g)
